@@ -145,6 +145,7 @@ class SimSlurm:
                         s = ln.strip()
                         if s.startswith("jade-internal run-jobs"):
                             info["run_line"] = s
+                            info.setdefault("run_lines", []).append(s)
             if info["run_line"]:
                 toks = shlex.split(info["run_line"])
                 cfg = toks[2] if len(toks) > 2 else None
@@ -212,7 +213,8 @@ class SimSlurm:
                    jobs=info["jobs"], blocked_by=info["blocked_by"], options=info["options"],
                    run_opts=info["run_opts"], run_script=w.rel(info["run_script"]) if info["run_script"] else None,
                    output=w.rel(info["output"]) if info["output"] else None,
-                   estimates=info.get("estimates"), job_groups=info.get("job_groups"))
+                   estimates=info.get("estimates"), job_groups=info.get("job_groups"),
+                   run_lines=len(info.get("run_lines") or []))
         if info["bad_options"]:
             w.emit("sbatch", vp, ok=False, why="bad_option", bad=info["bad_options"], **rec)
             return 1, "", f"sbatch: unrecognized option '--{info['bad_options'][0]}'\n"
@@ -234,6 +236,7 @@ class SimSlurm:
         j.script = path
         j.run_script = info["run_script"]
         j.run_line = info["run_line"]
+        j.run_lines = list(info.get("run_lines") or [])
         j.run_opts = info["run_opts"]
         j.batch_cfg = info["batch_cfg"]
         j.batch_index = info["batch_index"]
@@ -310,10 +313,13 @@ class SimSlurm:
             if not j.run_line:
                 vp.err.append("srun: error: nothing to run\n")
                 return 1
-            toks = shlex.split(j.run_line)
             from .proc import make_cli_target
 
-            return make_cli_target(toks)(vp)
+            # (bash without -e: every command line of the run script, in order; the exit status of the last)
+            rc = 1
+            for ln in (getattr(j, "run_lines", None) or [j.run_line]):
+                rc = make_cli_target(shlex.split(ln))(vp)
+            return rc
 
         return target
 
